@@ -14,6 +14,8 @@ type goCtx struct {
 	bad     string
 	recv    string
 	dataParam string
+	lets      map[string]*Node
+	depth     int
 }
 
 const replayHelpers = `
@@ -98,6 +100,42 @@ func specFresh(x any, data []byte) bool {
 	return b < lo || b >= lo+uintptr(cap(data))
 }
 
+func spec_upwidth(x UserProperties, k int) int {
+	n := 0
+	for j := 0; j < k && j < len(x); j++ {
+		if len(x[j][0]) != 0 {
+			n += 5 + len(x[j][0]) + len(x[j][1])
+		}
+	}
+	return n
+}
+
+func spec_sidwidth(x []uint32, k int) int {
+	n := 0
+	for j := 0; j < k && j < len(x); j++ {
+		if x[j] != 0 {
+			n += 1 + specVbWidth(uint(x[j]))
+		}
+	}
+	return n
+}
+
+func spec_tfwidth(x []TopicFilter, k int) int {
+	n := 0
+	for j := 0; j < k && j < len(x); j++ {
+		n += 3 + len(x[j].filter)
+	}
+	return n
+}
+
+func spec_wswidth(x []wstring, k int) int {
+	n := 0
+	for j := 0; j < k && j < len(x); j++ {
+		n += 2 + len(x[j])
+	}
+	return n
+}
+
 func specEqv(a, b any) bool {
 	bs := func(x any) ([]byte, bool) {
 		v := reflect.ValueOf(x)
@@ -155,6 +193,12 @@ func (c *goCtx) expr(n *Node) string {
 		if n.Name == "self" {
 			return c.recv
 		}
+		if ln, ok := c.lets[n.Name]; ok && c.depth < 8 {
+			c.depth++
+			s := "(" + c.expr(ln) + ")"
+			c.depth--
+			return s
+		}
 		if c.old {
 			return "old_" + n.Name
 		}
@@ -203,7 +247,7 @@ func (c *goCtx) expr(n *Node) string {
 				return "specFresh(" + c.expr(args[0]) + ", " + c.dataParam + ")"
 			}
 			return "true"
-		case "allocated", "disjoint", "separate", "heapobj":
+		case "allocated", "disjoint", "separate", "heapobj", "apart":
 			return "true"
 		case "base":
 			return "specBase(" + c.expr(args[0]) + ")"
@@ -226,6 +270,12 @@ func (c *goCtx) expr(n *Node) string {
 		var as []string
 		for _, a := range args {
 			as = append(as, c.expr(a))
+		}
+		switch name {
+		case "upwidth", "sidwidth", "tfwidth", "wswidth":
+			if len(as) == 2 {
+				return "spec_" + name + "(" + as[0] + ", int(" + as[1] + "))"
+			}
 		}
 		if name == "sameFormat" && len(as) == 2 {
 			return "specSameFormat(" + as[0] + ", " + as[1] + ")"
